@@ -1,6 +1,8 @@
 package schd
 
 import (
+	"berty.tech/go-ipfs-log/accesscontroller"
+	idp "berty.tech/go-ipfs-log/identityprovider"
 	"fmt"
 	"sort"
 	"strings"
@@ -47,7 +49,13 @@ func c06Scenarios(tier string) []Spec {
 				}
 				specs = append(specs, Spec{HBCache: true, RaceBound: 2, Shards: 1, Sc: sched.Scenario{Name: name, Make: func() *sched.Instance {
 					st := NewStore()
-					a := world.NewLog(st, 0, nil)
+					var aOpts *ipfslog.LogOptions
+					if then {
+						// a controller that looks at what the log holds before it answers (a quota, a causal rule): it
+						// reads the log through the context it is given, under whatever protection the caller provides
+						aOpts = &ipfslog.LogOptions{ID: "X", AccessController: inspectingAC{}}
+					}
+					a := world.NewLog(st, 0, aOpts)
 					b := world.NewLog(st, 1, nil)
 					mustAppend(a, "a1")
 					mustAppend(b, "b1")
@@ -292,4 +300,14 @@ func isPrefixState(s string, final []string) bool {
 func init() {
 	register(&Check{ID: "C06", Scenarios: c06Scenarios})
 	register(&Check{ID: "C17", Scenarios: c17Scenarios})
+}
+
+// inspectingAC permits everything after looking at the entries the log holds.
+type inspectingAC struct{}
+
+func (inspectingAC) CanAppend(_ accesscontroller.LogEntry, _ idp.Interface, ctx accesscontroller.CanAppendAdditionalContext) error {
+	if ctx != nil {
+		_ = ctx.GetLogEntries()
+	}
+	return nil
 }
